@@ -346,6 +346,18 @@ class Describer:
         return out
 
     def codec_key(self, f):
+        if isinstance(f, PartialV) and callable_target(f) is not None:
+            def kk(v):
+                if isinstance(v, (FuncV, PartialV)):
+                    return self.codec_key(v)
+                return v if isinstance(v, (int, str, bool, bytes)) or v is None else id(v)
+            return ("partial", self.codec_key(f.fn), tuple(kk(a) for a in f.args), tuple(sorted((k, kk(v)) for k, v in f.kwargs.items())))
+        if isinstance(f, InstV) and callable_target(f) is not None:
+            def kk(v):
+                if isinstance(v, (FuncV, PartialV)):
+                    return self.codec_key(v)
+                return v if isinstance(v, (int, str, bool, bytes)) or v is None else id(v)
+            return ("callable", f.cls.module, f.cls.name, tuple(sorted((k, kk(v)) for k, v in f.attrs.items())))
         if not isinstance(f, FuncV):
             return ("other", id(f))
         parts = []
@@ -387,8 +399,8 @@ class Describer:
             d = self.match_reader(tree, codec)
         except Limit as e:
             d = opaque(f"analysis limit: {e}")
-        d["_codec"] = getattr(codec, "ref", repr(codec))
-        d["_line"] = getattr(getattr(codec, "node", None), "lineno", 0)
+        d["_codec"] = callable_ref(codec)
+        d["_line"] = callable_line(codec)
         self._r[key] = d
         return d
 
@@ -403,7 +415,7 @@ class Describer:
             leaves = pure_leaves(nxt) if nxt is not None else None
             if leaves and all(l[1] == "raise" or (l[1] == "ret" and l[2] == n.ev[4]) for l in leaves) and any(l[1] == "ret" for l in leaves):
                 inner = dict(self.reader_desc(n.raw[2]))
-                inner["delegated_by"] = getattr(codec, "ref", repr(codec))
+                inner["delegated_by"] = callable_ref(codec)
                 return inner
         if n.kind == "ret" and self.returns_instance(n):
             return self.match_entity_reader(tree, codec)
@@ -756,8 +768,8 @@ class Describer:
                     d["class"] = inner_t.ref
         except Limit as e:
             d = opaque(f"analysis limit: {e}")
-        d["_codec"] = getattr(codec, "ref", repr(codec))
-        d["_line"] = getattr(getattr(codec, "node", None), "lineno", 0)
+        d["_codec"] = callable_ref(codec)
+        d["_line"] = callable_line(codec)
         self._w[key] = d
         return d
 
